@@ -32,6 +32,21 @@ CLAIMS = {
  "C12": dict(cat="proof", ref="4/C12", tech="contract-based deductive verification: VCs from the real SumOverTime/AvgOverTime._interpolate (loop invariant sum = Area(i)) and TimeIntegrationAdapter._get_data; Area is a recursive spec function; induction lemmas and QF_NRA piece lemmas discharged by z3",
    text="Unbounded: for linear and every step position in [0,1], per-time and absolute sums, the value accumulated by the real loop equals the exact integral (sum of closed-form pieces) of the interpolant over [prev pull, this pull]; the average divides it by the elapsed time; _get_data advances the window and keeps the bracketing entry. Lemmas: intervals after the window add nothing (induction), additivity over adjacent windows, mean-value bound, step weights = measure of the overlap below/above the step position.",
    note="reals for floats; pint unit algebra not modelled in the arithmetic (Unit('s') = 1); windows p0 < p1 inside the published range (property domain); degenerate initial branch and _get_info covered by the native stand-in only; " + TB),
+ "C05": dict(cat="other", ref="4/C05", tech="contract-based deductive verification of the two mechanisms the property rests on (failure frames of the exchange functions, progress accounting of ConnectHelper); the quantifier over listing/linking permutations itself is only covered by a bounded native stand-in",
+   text="Proved (unbounded): an exchange attempt that raises FinamNoDataError leaves every object unchanged (Output.get_data/push_data/get_info, Input.exchange_info via its source, the helper's attempts), so retries in any order reach the same state; ConnectHelper.connect/_push/_exchange_in_infos report progress exactly when something new was exchanged (the mechanism that makes the driver loop order independent). Bounded, never counted as proved: random compositions are run under 3 listing orders each and outcome class + every consumer's series are compared.",
+   note="the relational statement over all permutations is not a per-function contract; interface contracts of user slots/components are assumed to have the same empty failure frame; " + TB),
+ "C06": dict(cat="other", ref="4/C06", tech="contract-based deductive verification of ConnectHelper.connect/_push/_push_data/_exchange_in_infos/_check_names and Composition._connect_components (progress measure); convergence for acyclic dependencies is a liveness statement covered only by the bounded stand-in",
+   text="Proved (unbounded): connect() returns CONNECTED iff no declared exchange is outstanding, CONNECTING iff something new was exchanged in this call, CONNECTING_IDLE otherwise; all book-keeping maps are monotone; initial data is published once for the composition start and once (a distinct copy) for the producer's own start when they differ; the driver loop exits only with every component CONNECTED, raises the circular-coupling error only after a sweep without progress, and every completed sweep strictly advances a ghost progress counter. Not decided: convergence (that acyclic dependencies always end connected).",
+   note="info transfer rules (_apply_*_rules) and Info.copy_with enter as assumed contracts; slot methods follow the interface contract (succeed or raise FinamNoDataError with empty frame); " + TB),
+ "C07": dict(cat="proof", ref="4/C07", tech="contract-based deductive verification of Info.accepts, Output.get_info (loop invariant for the monotone metadata fill), Input.exchange_info, Adapter.exchange_info/get_info, TimeDelayAdapter.get_info, discharged by z3",
+   text="Unbounded over all field states: accepts answers exactly the documented rule for grid/mask/units (with the downstream exception); Output.get_info raises FinamNoDataError iff no info, FinamMetaDataError iff not accepted or a field is unset on both sides, otherwise fills only unset fields from the request (set fields never change) and counts the exchange; Input.exchange_info ends with an info without unset fields that keeps every requested value (including a mask fixed by the consumer) and a transform taken from the two grids; adapters forward and store.",
+   note="grid/unit/mask relations enter as uninterpreted relations with reflexivity/symmetry (decided in C15/C17/C18); Info.copy_with is an assumed constructor contract; Info is treated as a closed class; metadata-rewriting adapters (_get_info overrides) are not yet under contract; " + TB),
+ "C08": dict(cat="proof", ref="4/C08", tech="contract-based deductive verification of Output._interpolate/get_data/push_data/notify_targets/_unpack and Input.pull_data/_convert_and_check; prepare() only through an assumed value function plus an exhaustive bounded stand-in",
+   text="Unbounded over all histories and requests: a pull returns the value of a publication nearest to t in the full history, time errors exactly outside [oldest, newest]; push_data refuses when infos are not exchanged (nothing changed), refuses an array sharing memory with the previous publication, otherwise appends (t, prepare(data)), sets the output time and notifies every target with t; an input sends exactly one request (time, target or itself) and applies the stored grid transform, then the unit conversion; a static input fetches once.",
+   note="tools.prepare/to_units/check are assumed value functions here (shape/unit/mask algebra of prepare: bounded stand-in over 828 payload x grid x unit x mask cases on real numpy/pint); payload = real number; " + TB),
+ "C10": dict(cat="proof", ref="4/C10", tech="contract-based deductive verification with a ghost file store (existing files, file contents): _pack/_unpack/_clear_data/finalize of Output and of the time caching adapters, every read path stated over Val(entry)",
+   text="Unbounded: _pack dumps exactly when 0 <= limit < total + nbytes, to a fresh file below the configured location, leaving every other file untouched; every read path (nearest, next/previous/linear/step, sum/average) is stated over the value an entry stands for, in RAM or on disk, so results do not depend on the limit; evicted and finalized entries have their files removed, nothing else is removed. Masked payloads and unit re-labelling are covered by the native adapter-history stand-in (limit 0 vs none, plain vs masked).",
+   note="np.save/np.load/os.remove/os.path.join are assumed library contracts over the ghost store (np.save refuses masked arrays); file names of different slots are distinct (id prefix); Composition handing limits to slots is not yet under contract; " + TB),
 }
 
 
